@@ -72,6 +72,10 @@ def evalHead (v : View) (tag arg : String) (k : Node → List (String × Json)) 
       (match v.mutationType with
        | some m => .obj (k (.ty (.named m)))
        | none => .null)
+    else if tag == "subscriptionType" then
+      (match v.subscriptionType with
+       | some m => .obj (k (.ty (.named m)))
+       | none => .null)
     else .null
   | .ty (.named p) =>
     if tag == "name" then .str p
